@@ -27,6 +27,12 @@ from cnfgen.graphs import split_random_edges
 from cnfgen.graphs import normalize_networkx_labels
 
 
+def require(condition):
+    """Argument validation that does not vanish under `python -O`"""
+    if not condition:
+        raise AssertionError
+
+
 #
 # Simple graphs
 #
@@ -36,9 +42,9 @@ def obtain_gnd(parsed):
         n, d = parsed['args']
         n = int(n)
         d = int(d)
-        assert n > 0
-        assert d > 0
-        assert n > d
+        require(n > 0)
+        require(d > 0)
+        require(n > d)
     except (TypeError, AssertionError, ValueError):
         raise ValueError('\'gnd\' expects arguments N d with N > d > 0')
 
@@ -85,9 +91,9 @@ def obtain_gnp(parsed):
         n = int(n)
         p = float(p)
         t = int(t)
-        assert n > 0
-        assert 0 <= p <= 1
-        assert t > 0
+        require(n > 0)
+        require(0 <= p <= 1)
+        require(t > 0)
     except (TypeError, ValueError, AssertionError):
         raise ValueError(
             '\'gnp\' expects arguments N p with N>0, p in [0,1]\n' +
@@ -108,9 +114,9 @@ def obtain_gnm(parsed):
         n, m = parsed['args']
         n = int(n)
         m = int(m)
-        assert n > 0
-        assert m >= 0
-        assert m <= n * (n - 1) // 2
+        require(n > 0)
+        require(m >= 0)
+        require(m <= n * (n - 1) // 2)
     except (TypeError, ValueError, AssertionError):
         raise ValueError(
             '\'gnm\' expects arguments N m with N>0 and 0 <= m <= N(N-1)/2')
@@ -132,8 +138,8 @@ def obtain_complete_simple(parsed):
             b = int(parsed['args'][1])
         else:
             raise ValueError
-        assert n > 0
-        assert b is None or b > 0
+        require(n > 0)
+        require(b is None or b > 0)
 
     except (TypeError, ValueError, AssertionError):
         raise ValueError(
@@ -158,7 +164,7 @@ def obtain_empty_simple(parsed):
         if len(parsed['args']) != 1:
             raise ValueError
         n = int(parsed['args'][0])
-        assert n > 0
+        require(n > 0)
     except (TypeError, ValueError, AssertionError):
         raise ValueError('\'complete\' expects argument N with N>0')
 
@@ -202,7 +208,7 @@ def modify_simple_graph_plantclique(parsed, G):
         if len(parsed['plantclique']) != 1:
             raise ValueError
         cliquesize = int(parsed['plantclique'][0])
-        assert cliquesize >= 0
+        require(cliquesize >= 0)
     except (TypeError, ValueError, AssertionError):
         raise ValueError('\'plantclique\' expects argument k with k>=0')
 
@@ -222,7 +228,7 @@ def modify_graph_addedges(parsed, G):
         if len(parsed['addedges']) != 1:
             raise ValueError
         k = int(parsed['addedges'][0])
-        assert k >= 0
+        require(k >= 0)
     except (TypeError, ValueError, AssertionError) as e:
         raise ValueError('\'addedges\' expects argument m with m>=0') from e
 
@@ -235,7 +241,7 @@ def modify_graph_splitedges(parsed, G):
         if len(parsed['splitedges']) != 1:
             raise ValueError
         k = int(parsed['splitedges'][0])
-        assert k >= 0
+        require(k >= 0)
     except (TypeError, ValueError, AssertionError) as e:
         raise ValueError('\'splitedges\' expects argument k with k>=0') from e
 
@@ -253,9 +259,9 @@ def obtain_glrp(parsed):
         left = int(left)
         right = int(right)
         p = float(p)
-        assert left > 0
-        assert right > 0
-        assert 0 <= p <= 1
+        require(left > 0)
+        require(right > 0)
+        require(0 <= p <= 1)
     except (TypeError, ValueError, AssertionError) as e:
         raise ValueError(
             '\'glrp\' expects three arguments L R p\n with L>0, R>0, p in [0,1]'
@@ -273,9 +279,9 @@ def obtain_glrm(parsed):
         left = int(left)
         right = int(right)
         edges = int(edges)
-        assert left > 0
-        assert right > 0
-        assert 0 <= edges <= left * right
+        require(left > 0)
+        require(right > 0)
+        require(0 <= edges <= left * right)
     except (TypeError, ValueError, AssertionError):
         raise ValueError(
             '\'glrm\' expects three arguments L R m\n with L>0, R>0, 0<= m <= L*R'
@@ -293,9 +299,9 @@ def obtain_glrd(parsed):
         left = int(left)
         right = int(right)
         degree = int(degree)
-        assert left > 0
-        assert right > 0
-        assert 0 <= degree <= right
+        require(left > 0)
+        require(right > 0)
+        require(0 <= degree <= right)
     except (TypeError, ValueError, AssertionError):
         raise ValueError(
             '\'glrd\' expects three arguments L R d\n with L>0, R>0, 0<= d <= R'
@@ -313,10 +319,10 @@ def obtain_bipartite_regular(parsed):
         left = int(left)
         right = int(right)
         degree = int(degree)
-        assert left > 0
-        assert right > 0
-        assert 0 <= degree <= right
-        assert (degree * left % right) == 0
+        require(left > 0)
+        require(right > 0)
+        require(0 <= degree <= right)
+        require((degree * left % right) == 0)
     except (TypeError, ValueError, AssertionError):
         raise ValueError('\'regular\' expects three arguments L R d\n'
                          'with L>0, R>0, 0<= d <= R\n'
@@ -338,8 +344,8 @@ def obtain_bipartite_shift(parsed):
         L, R, pattern = int(values[0]), int(values[1]), sorted(
             int(x) for x in values[2:])
 
-        assert L > 0
-        assert R > 0
+        require(L > 0)
+        require(R > 0)
 
         for i in range(len(pattern) - 1):
             if pattern[i] == pattern[i + 1]:
@@ -365,8 +371,8 @@ def obtain_complete_bipartite(parsed):
             raise ValueError
         left = int(parsed['args'][0])
         right = int(parsed['args'][1])
-        assert left > 0
-        assert right > 0
+        require(left > 0)
+        require(right > 0)
     except (TypeError, ValueError, AssertionError):
         raise ValueError('\'complete\' expects argument L R with L>0, R>0')
 
@@ -383,8 +389,8 @@ def obtain_empty_bipartite(parsed):
             raise ValueError
         left = int(parsed['args'][0])
         right = int(parsed['args'][1])
-        assert left > 0
-        assert right > 0
+        require(left > 0)
+        require(right > 0)
     except (TypeError, ValueError, AssertionError):
         raise ValueError('\'complete\' expects argument <L> <R> with L>0, R>0')
 
@@ -399,8 +405,8 @@ def modify_bipartite_graph_plantbiclique(parsed, G):
             raise ValueError
         cliqueleft = int(parsed['plantbiclique'][0])
         cliqueright = int(parsed['plantbiclique'][1])
-        assert cliqueleft >= 0
-        assert cliqueright >= 0
+        require(cliqueleft >= 0)
+        require(cliqueright >= 0)
     except (TypeError, ValueError, AssertionError):
         raise ValueError(
             '\'plantbiclique\' expects argument A B with A>=0, B>=0')
@@ -428,7 +434,7 @@ def obtain_tree(parsed):
             raise ValueError
         height = parsed['args'][0]
         height = int(height)
-        assert height >= 0
+        require(height >= 0)
     except (TypeError, ValueError, AssertionError):
         raise ValueError('\'tree\' expects a single height argument h>=0')
     G = dag_complete_binary_tree(height)
@@ -442,7 +448,7 @@ def obtain_pyramid(parsed):
             raise ValueError
         height = parsed['args'][0]
         height = int(height)
-        assert height >= 0
+        require(height >= 0)
     except (TypeError, ValueError, AssertionError):
         raise ValueError('\'pyramid\' expects a single height argument h>=0')
     G = dag_pyramid(height)
@@ -456,7 +462,7 @@ def obtain_path(parsed):
             raise ValueError
         length = parsed['args'][0]
         length = int(length)
-        assert length >= 0
+        require(length >= 0)
     except (TypeError, ValueError, AssertionError):
         raise ValueError('\'path\' expects a single length argument L>=0')
     G = dag_path(length)
